@@ -156,6 +156,11 @@ func behaviourCheck(c *Ctx, n int, mk func(r *rand.Rand, i int) (*cfg.Config, []
 		r := rand.New(rand.NewSource(c.Seed*1000003 + int64(i)))
 		conf, ops := mk(r, i)
 		u := &probe.Unit{ID: idOf(i), Cfg: conf, Files: []probe.File{{Name: "gontainer.yaml", Content: conf.YAML()}}, Ops: ops}
+		if i%2 == 1 {
+			// the same configuration written as several files (2, 4, or 4 with single-section files): what the container does
+			// is a property of the merged configuration
+			u.Files = gen.Split(rand.New(rand.NewSource(c.Seed*31337+int64(i))), conf, 1+(i/2)%3)
+		}
 		units = append(units, u)
 	}
 	return behaviourUnits(c, lab, units, nontrivial, skipTainted)
